@@ -2302,7 +2302,8 @@ func (f *fragment) importRoaring(ctx context.Context, data []byte, clear bool) e
 		delete(f.checksums, int(rowID/HashBlockSize))
 		if updateCache {
 			anyChanged = true
-			f.cache.BulkAdd(rowID, f.cache.Get(rowID)+uint64(changes))
+			// recount: the cached count may be missing (evicted row) or stale
+			f.cache.BulkAdd(rowID, f.storage.CountRange(rowID*ShardWidth, (rowID+1)*ShardWidth))
 		}
 	}
 	// we only set this if we need to update the cache
